@@ -307,8 +307,11 @@ func (b *Backend) SendMetricsAsync(ctx context.Context, mm *gostatsd.MetricMap, 
 
 func (b *Backend) SendEvent(ctx context.Context, e *gostatsd.Event) error {
 	atomic.AddInt32(&b.InEvent, 1)
-	if b.EventGate != nil {
-		<-b.EventGate
+	b.mu.Lock()
+	gate := b.EventGate
+	b.mu.Unlock()
+	if gate != nil {
+		<-gate
 	}
 	c := CopyEvent(e)
 	b.mu.Lock()
@@ -317,6 +320,16 @@ func (b *Backend) SendEvent(ctx context.Context, e *gostatsd.Event) error {
 	atomic.AddInt32(&b.InEvent, -1)
 	return b.SendErr
 }
+
+// SetEventGate installs (or removes) the gate SendEvent waits at, also while the backend is in use.
+func (b *Backend) SetEventGate(g chan struct{}) {
+	b.mu.Lock()
+	b.EventGate = g
+	b.mu.Unlock()
+}
+
+// EventsInFlight is the number of SendEvent calls that have started and not finished.
+func (b *Backend) EventsInFlight() int32 { return atomic.LoadInt32(&b.InEvent) }
 
 func (b *Backend) Snapshot() ([]*gostatsd.MetricMap, []*gostatsd.Event) {
 	b.mu.Lock()
